@@ -203,6 +203,9 @@ class HostModel:
                 raise InvalidHistory('bad poke section')
             if op['section'] == 'snippets':
                 self.poked.setdefault(cid, {})[op['key']] = op.get('value')
+        elif kind == 'soak_distinct':
+            if op['cfg'] not in self.cur:
+                raise InvalidHistory('unknown config')
         elif kind == 'resolve':
             if op['cfg'] not in self.cur:
                 raise InvalidHistory('unknown config')
